@@ -328,7 +328,9 @@ def check(ctx):
         key = b["prng_key"]
         from ..core.terms import substitute
         hole = {call: ("c", "<mh_step>")}
+        read_through = {x[2] for x in getattr(r, "inlined", [])}
         others = [t for t, _, _ in r.calls if t != call and key is not None
+                  and t not in read_through
                   and any(x == key for a in list(t[2]) + [v for _, v in t[3]]
                           for x in subterms(substitute(a, hole)))]
         ctx.ob("C05.R5", st, "the key given to mh_step is not used by any other call",
